@@ -1166,6 +1166,8 @@ class Operation(_IRNode):
         else:
             region_idx = region
             region = self.regions[region_idx]
+            if region_idx < 0:
+                region_idx += len(self.regions)
         region.parent = None
         self.regions = self.regions[:region_idx] + self.regions[region_idx + 1 :]
         return region
